@@ -101,6 +101,10 @@ class C19(Prop):
             case = {'cassette': cassette, 'recs': recs, 'explicit': explicit, 'categories': categories,
                     'skip_incomplete': rng.random() < .7, 'failing': failing, 'keep': rng.random() < .3,
                     'resave': sorted(rng.sample(range(nrec), rng.randint(1, min(3, nrec)))) if nrec and rng.random() < .25 else []}
+            if case['skip_incomplete'] and not explicit and rng.random() < 0.35:
+                # the studio's own default lookup properties (a week back, at most 20 per category, incomplete ones skipped) -
+                # with at most 10 recordings a category they select what the explicit properties select
+                case['default_props'] = True
             case['order'] = self.make_order(case, rng)
             cases.append(case)
         # the same kind of run with every category's comparisons in a dedicated worker process, the categories' generators
@@ -339,7 +343,7 @@ class C19(Prop):
             else:
                 props = RecordingLookupProperties(start_date=datetime.datetime.utcnow() - datetime.timedelta(days=1),
                                                   skip_incomplete=case['skip_incomplete'])
-                studio = PlaybackStudio(case['categories'], Tuner(), tr, lookup_properties=props,
+                studio = PlaybackStudio(case['categories'], Tuner(), tr, lookup_properties=None if case.get('default_props') else props,
                                         compare_execution_config=CompareExecutionConfig(
                                             keep_results_in_comparison=case['keep'],
                                             compare_in_dedicated_process=bool(case.get('dedicated')),
